@@ -17,6 +17,7 @@ import (
 	"time"
 
 	"verif/checker/internal/load"
+	"verif/checker/internal/neutral"
 	"verif/checker/internal/report"
 	"verif/checker/internal/rules"
 )
@@ -33,8 +34,21 @@ func main() {
 		list    = flag.Bool("list", false, "list properties and mutants")
 		replay  = flag.String("replay", "", "re-evaluate and print only the obligations named in a report file")
 		noEv    = flag.Bool("no-evidence", false, "do not write evidence / report files")
+		dumpLoc = flag.String("dump-locals", "", "dev: write the table of local names of the current tree (internal/load/locals.json) to this file and exit")
 	)
 	flag.Parse()
+	if *dumpLoc != "" {
+		pr, err := load.Load(load.Config{Dir: *repo, RawNames: true})
+		if err != nil {
+			fmt.Fprintln(os.Stderr, err)
+			os.Exit(2)
+		}
+		if err := os.WriteFile(*dumpLoc, pr.DumpLocals(), 0644); err != nil {
+			fmt.Fprintln(os.Stderr, err)
+			os.Exit(2)
+		}
+		return
+	}
 	if *list {
 		for _, id := range rules.IDs() {
 			fmt.Println(id)
@@ -109,6 +123,46 @@ func main() {
 		}
 	}
 
+	// robustness self-test: behaviour-preserving rewrites of the whole module must not change the verdict
+	var neutralRes interface{}
+	if *tier == "thorough" && overlay == nil {
+		type nres struct {
+			Mode     string   `json:"mode"`
+			Rewrites int      `json:"rewrites"`
+			NewFails []string `json:"new_alarms"`
+		}
+		var all []nres
+		base := map[string]bool{}
+		for _, o := range total.Obls {
+			if o.Status == report.Violated || o.Status == report.Unresolved || o.Status == report.Known {
+				base[o.Rule+" "+o.Construct] = true
+			}
+		}
+		for _, mode := range []string{"rename", "flip"} {
+			ov, n, err := neutral.Overlay(*repo, mode, nil)
+			r := nres{Mode: mode, Rewrites: n}
+			if err != nil {
+				total.Unres("selftest", "neutral/"+mode, "-", "could not build the rewritten tree: "+err.Error())
+			} else if res, _, err := runOnce(load.Config{Dir: *repo, Overlay: ov}, p, "quick"); err != nil {
+				total.Unres("selftest", "neutral/"+mode, "-", "the rewritten tree does not load: "+oneLine(err.Error()))
+			} else {
+				res.ApplyFindings(findings)
+				for _, o := range res.Obls {
+					if (o.Status == report.Violated || o.Status == report.Unresolved) && !base[o.Rule+" "+o.Construct] {
+						r.NewFails = append(r.NewFails, o.Rule+" "+o.Construct)
+					}
+				}
+				if len(r.NewFails) > 0 {
+					total.Unres("selftest", "neutral/"+mode, "-", fmt.Sprintf("the checks raise %d alarm(s) on a behaviour-preserving rewrite (%s) of the tree: %s", len(r.NewFails), mode, strings.Join(r.NewFails, "; ")))
+				} else {
+					total.OK("selftest", "neutral/"+mode, "-", fmt.Sprintf("same verdict on the tree with %d %s rewrites", n, mode))
+				}
+			}
+			all = append(all, r)
+		}
+		neutralRes = all
+	}
+
 	if *replay != "" {
 		os.Exit(doReplay(total, *replay))
 	}
@@ -123,7 +177,7 @@ func main() {
 			Trusted:    trusted(p),
 			Configs:    labels,
 			Deps:       deps,
-			Selftest:   selftest,
+			Selftest:   map[string]interface{}{"mutants": selftest, "neutral_rewrites": neutralRes},
 			Exhaustive: true,
 			Explain:    p.Explain,
 		}
@@ -142,6 +196,12 @@ func runOnce(cfg load.Config, p *rules.Property, tier string) (res *report.Resul
 	}
 	res = report.New(p.ID)
 	res.Config = cfg.Label()
+	if prog.Renamed > 0 {
+		res.Note("%d renamed local variable(s) were given their recorded names before the rules ran (internal/load/canon.go)", prog.Renamed)
+	}
+	for _, n := range prog.CanonNotes {
+		res.Note("local names: %s", n)
+	}
 	ctx := rules.NewCtx(prog, res, tier)
 	func() {
 		defer func() {
